@@ -40,6 +40,21 @@ type BoolKeeper interface {
 	Bool() bool
 }
 
+// newRegexFromRule is NewRegex for a rule written in a schema: a pattern that
+// does not compile is reported with an error code, not with the text of the
+// panic of regexp.MustCompile (a diagnostic without a code).
+func newRegexFromRule(ruleValue bytes.Bytes) Constraint {
+	defer func() {
+		if r := recover(); r != nil {
+			if _, ok := r.(string); ok {
+				panic(errs.ErrRegexInvalid.F(ruleValue.TrimSpaces().String()))
+			}
+			panic(r)
+		}
+	}()
+	return NewRegex(ruleValue)
+}
+
 // NewConstraintFromRule creates a Constraint from the rule.
 // Might return nil.
 func NewConstraintFromRule( //nolint:gocyclo // For now it's okay.
@@ -76,7 +91,7 @@ func NewConstraintFromRule( //nolint:gocyclo // For now it's okay.
 	case "nullable":
 		return NewNullable(ruleValue)
 	case "regex":
-		return NewRegex(ruleValue)
+		return newRegexFromRule(ruleValue)
 	case "const":
 		return NewConst(ruleValue, nodeValue)
 	}
